@@ -128,7 +128,7 @@ def episode_cases(draw, tier="quick", with_env=True):
     n = draw(st.one_of(st.integers(5, 12), st.integers(2, 12)))
     # markov_reset drops events older than the first timestep (documented: "past events will not be
     # processed"), so with it no event is placed before the first grid point.
-    markov = (not with_env) and draw(st.booleans())
+    markov = draw(st.booleans())
     gap = st.one_of(st.integers(2, 90), st.integers(91, 4000))
     gaps = draw(st.lists(gap, min_size=n - 1, max_size=n - 1))
     g0 = draw(st.integers(0, 1500))
@@ -166,7 +166,25 @@ def episode_cases(draw, tier="quick", with_env=True):
             a, b = bound(-1, 2 * n - 1), bound(-1, 2 * n - 1)
         folds.append([min(a, b), max(a, b)])
     fold = draw(st.integers(0, nfolds - 1)) if nfolds else 0
-    case = {"g0": g0, "gaps": gaps, "events": events, "folds": folds, "fold": fold}
+    # The grid is GIVEN in a generated order (the library sorts and de-duplicates it): chronological,
+    # newest-first, shuffled, with repeated entries, partly through add_timesteps, as list or DatetimeIndex.
+    how = draw(st.sampled_from(["reversed", "sorted", "shuffled", "rotated", "shuffled"]))
+    given = list(range(n))
+    if how == "reversed":
+        given.reverse()
+    elif how == "shuffled":
+        given = list(draw(st.permutations(given)))
+    elif how == "rotated":
+        r = draw(st.integers(1, n - 1))
+        given = given[r:] + given[:r]
+    for d in draw(st.lists(st.integers(0, n - 1), max_size=2)):
+        given.insert(draw(st.integers(0, len(given))), d)
+    later = draw(st.sampled_from([0, 0, 1, 2]))
+    if later:
+        later = draw(st.integers(1, len(given) - 1))
+    tskind = draw(st.sampled_from(["list", "list", "pd"]))
+    case = {"g0": g0, "gaps": gaps, "events": events, "folds": folds, "fold": fold,
+            "given": given, "later": later, "tskind": tskind, "markov": markov}
     slots, _ = model_slots(grid, events)
     lo, hi = fold_window(case)
     S = len(fold_steps(slots, lo, hi))
@@ -187,7 +205,6 @@ def episode_cases(draw, tier="quick", with_env=True):
     case["span"] = draw(st.one_of(st.none(), st.none(), st.integers(1, 30)))
     case["seed0"] = draw(st.integers(0, 2 ** 31 - 1))
     if not with_env:
-        case["markov"] = markov
         return case
     # further resets on the SAME environment: a default reset (the constructor's length, or the whole fold,
     # must apply again whatever an earlier reset asked for) or a reset with another explicit length
@@ -211,7 +228,13 @@ def build_transmitter(case, grid, markov=False):
     folds = None
     if case["folds"]:
         folds = {FOLD_NAMES[i]: [T(a), T(b)] for i, (a, b) in enumerate(case["folds"])}
-    tr = Transmitter([T(g) for g in grid], folds=folds, markov_reset=markov)
+    given = case.get("given") or list(range(len(grid)))
+    later = case.get("later", 0)
+    first = [T(grid[i]) for i in given[:len(given) - later]]
+    rest = [T(grid[i]) for i in given[len(given) - later:]]
+    tr = Transmitter(pd.DatetimeIndex(first) if case.get("tskind") == "pd" else first, folds=folds, markov_reset=markov)
+    if rest:
+        tr.add_timesteps(rest)
     etf, idx = ETF("SPY"), Index("NDX")
     evs = []
     for k, (minute, kind) in enumerate(case["events"]):
@@ -228,6 +251,20 @@ def describe(case, grid, slots, lo, hi):
 def classify(res, case, grid, slots, lo, hi, steps, n):
     """Coverage classes + the non-trivial rule. n = decisions of the episode (None when refused)."""
     res.tag("mode-" + case["mode"])
+    given = case.get("given") or list(range(len(grid)))
+    if given != sorted(given):
+        res.tag("grid-given-unsorted")
+        if given[0] != 0:
+            res.tag("first-given-not-earliest")
+            if case.get("markov"):
+                res.tag("first-given-not-earliest+markov")
+    if len(set(given)) != len(given):
+        res.tag("grid-duplicates")
+    if case.get("later"):
+        res.tag("timesteps-added-later")
+    if case.get("tskind") == "pd":
+        res.tag("grid-DatetimeIndex")
+    res.tag("markov" if case.get("markov") else "replay")
     if case["span"] is not None:
         res.tag("sampling-span")
     nf = len(case["folds"])
@@ -316,7 +353,7 @@ def run_episodes(case):
     ctx = describe(case, grid, slots, lo, hi)
     ctor_n = case["n"] if mode == "ctor" else case["ctor_n"] if mode == "reset+ctor" else None
 
-    tr, etf = build_transmitter(case, grid)
+    tr, etf = build_transmitter(case, grid, markov=bool(case.get("markov")))
     kwargs = dict(action_space=[etf], state=IState(), reward=RewardSimpleReturn(), transmitter=tr,
                   broker_fees=BrokerFees(), latency=0, sampling_span=span)
     if ctor_n is not None:
@@ -469,7 +506,6 @@ def run_transmitter(case):
     ctx = describe(case, grid, slots, lo, hi)
     tr, _ = build_transmitter(case, grid, markov=case["markov"])
     tr._create_partitions(0)
-    res.tag("markov" if case["markov"] else "replay")
 
     def walk(expected, label):
         """Iterate _next() to exhaustion; compare the visit sequence with `expected` (a function of the
